@@ -115,21 +115,20 @@ theorem odoRun_level (outer : Vars) (visit : Vars → σ → Except Err (σ × B
       rw [hc, odoRun_succ]
       simp only [odoStep, pure, Except.pure, bind, Except.bind]
       -- the level below starts its generator
-      have hv : frameVars ({ name := name, sel := sel, value := v, rest := rest } :: frames) outer
+      have hv : frameVars (Frame.mk name sel v rest :: frames) outer
           = (name, [v]) :: frameVars frames outer := rfl
       simp only [subCost, cartFold]
       cases hs : sel' ((name, [v]) :: frameVars frames outer) with
       | error e =>
-        rw [Nat.add_comm 1, ← Nat.add_assoc, Nat.add_comm _ 1, Nat.add_comm 1, odoRun_succ]
+        simp only []
+        rw [Nat.add_comm 1, odoRun_succ]
         simp [odoStep, hv, hs, bind, Except.bind]
       | ok items' =>
         simp only []
         -- a not-started generator behaves like a started one holding its items
         have hstart : ∀ (n : Nat),
-            odoRun outer visit n { frames := { name := name, sel := sel, value := v, rest := rest } :: frames,
-                                  cur := none, pending := (name', sel') :: later' } acc
-            = odoRun outer visit n { frames := { name := name, sel := sel, value := v, rest := rest } :: frames,
-                                  cur := some items', pending := (name', sel') :: later' } acc := by
+            odoRun outer visit n ⟨Frame.mk name sel v rest :: frames, none, (name', sel') :: later'⟩ acc
+            = odoRun outer visit n ⟨Frame.mk name sel v rest :: frames, some items', (name', sel') :: later'⟩ acc := by
           intro n
           cases n with
           | zero => rfl
@@ -137,7 +136,7 @@ theorem odoRun_level (outer : Vars) (visit : Vars → σ → Except Err (σ × B
             rw [odoRun_succ, odoRun_succ]
             simp [odoStep, hv, hs, bind, Except.bind, pure, Except.pure]
         rw [hstart]
-        have := ihl name' sel' items' ({ name := name, sel := sel, value := v, rest := rest } :: frames) acc
+        have := ihl name' sel' items' ((Frame.mk name sel v rest :: frames)) acc
           (levelCost ((name', sel') :: later') (frameVars frames outer) name rest + fuel)
         rw [hv] at this
         rw [this]
